@@ -6,9 +6,11 @@
 // NOT decided here (see DESIGN): that the decoder's interner still holds every referenced value (shared interner behind
 // &Plugin, Weak handles: interior mutability and caller history).
 //@ rule R13
+//@ rule R14
 #![feature(allocator_api)]
 #![allow(unused_imports, unused_variables, dead_code, non_snake_case)]
 use vstd::prelude::*;
+use vstd::string::StringSliceAdditionalSpecFns;
 use vstd::std_specs::convert::*;
 use vstd::std_specs::hash::*;
 use std::io;
